@@ -369,6 +369,7 @@ def extract(func, loops=None, overrides=None, vc=None, module_overrides=None):
         source_lines=len(src.splitlines()),
         cut={k: v for k, v in cutter.cut.items()},
         n_loops=cutter.ordinal + 1,
+        renamed=renamed,
         dropped=('back edges of loops ' + str(sorted(cutter.cut)) if cutter.cut
                  else 'nothing') + ('; zero-argument super() rewritten to '
                                     'super(<owning class>, self)' if rewrote_super else '')
